@@ -695,8 +695,14 @@ def startpoints(w, repo):
     with Sandbox() as d:
         os.makedirs(os.path.join(d, "w", "b"))
         open(os.path.join(d, "w", "-"), "w").close()
+        open(os.path.join(d, "w", "(old)"), "w").close()
+        open(os.path.join(d, "w", "!keep"), "w").close()
         # 'a' is deliberately missing: a starting point that cannot be examined
         cwd = os.path.join(d, "w")
+        if "rejected, but the command line is well formed" in what:
+            rc, out, err = run([find_bin(repo)] + toks, cwd=cwd)
+            bad = b"nrecognized" in err or b"invalid expression" in err.lower()
+            return (True if bad else False), "find %s: rc=%d stderr=%r" % (" ".join(toks), rc, err.decode(errors="replace").strip()[:120])
         rc, out, err = run([find_bin(repo)] + toks + ["-maxdepth", "0"] if not any(t in ("-print", "-true", "-quit", "!", "(", "-bogus") for t in toks) else [find_bin(repo)] + toks, cwd=cwd)
         missing = [t for t in toks if t == "a"]
         if "exit status zero" in what:
